@@ -59,11 +59,15 @@ pub struct SharedSpec {
     pub prelude2: Vec<Blk>,
     pub tasks: Vec<Vec<Op>>,
     pub sched: Sched,
+    /// force async-lock's fair hand-off: every task that parks on the mutex really waits longer
+    /// than the 500 us starvation threshold
+    #[serde(default)]
+    pub starve: bool,
 }
 
 impl Default for SharedSpec {
     fn default() -> Self {
-        SharedSpec { key_seed: 1, replica: false, prelude: vec![], prelude2: vec![], tasks: vec![], sched: Sched::Random { seed: 0 } }
+        SharedSpec { key_seed: 1, replica: false, prelude: vec![], prelude2: vec![], tasks: vec![], sched: Sched::Random { seed: 0 }, starve: false }
     }
 }
 
@@ -197,6 +201,7 @@ fn res_matches(expected: &[ResAbs], got: &ResAbs) -> bool {
     expected.iter().any(|e| match (e, got) {
         (ResAbs::Err(_), ResAbs::Err(_)) => true,
         (ResAbs::Missing(_), ResAbs::Missing(_)) => true,
+        (ResAbs::ProofSome { block: eb, .. }, ResAbs::ProofSome { sig_len: None, block: gb }) => eb == gb,
         (a, b) => a == b,
     })
 }
@@ -412,6 +417,8 @@ pub struct OneRun {
     pub lin_states: u64,
     pub log: u64,
     pub steps: u64,
+    pub tainted: bool,
+    pub retries: u32,
 }
 
 enum Chooser {
@@ -420,8 +427,20 @@ enum Chooser {
     Path(Vec<u8>),
 }
 
+/// barging-mode runs that were disturbed by an OS stall are repeated (see exec::SchedOutcome::Tainted)
 pub fn run_once(spec: &SharedSpec, sched: &Sched) -> OneRun {
-    let mut out = OneRun { viols: vec![], schedule: vec![], choices: vec![], widths: vec![], preemptions: 0, lin_states: 0, log: 0, steps: 0 };
+    let mut last = run_once_inner(spec, sched);
+    let mut tries = 0;
+    while last.tainted && tries < 8 {
+        tries += 1;
+        last = run_once_inner(spec, sched);
+        last.retries = tries;
+    }
+    last
+}
+
+fn run_once_inner(spec: &SharedSpec, sched: &Sched) -> OneRun {
+    let mut out = OneRun { viols: vec![], schedule: vec![], choices: vec![], widths: vec![], preemptions: 0, lin_states: 0, log: 0, steps: 0, tainted: false, retries: 0 };
     let built = match build(spec) {
         Ok(b) => b,
         Err(e) => {
@@ -513,6 +532,7 @@ pub fn run_once(spec: &SharedSpec, sched: &Sched) -> OneRun {
             t
         },
         200_000,
+        if spec.starve { Some(std::time::Duration::from_micros(650)) } else { None },
     );
     drop(tasks);
     out.schedule = schedule;
@@ -522,6 +542,10 @@ pub fn run_once(spec: &SharedSpec, sched: &Sched) -> OneRun {
     out.steps = counter.get();
     let mut viol = |clause: &str, msg: String| out.viols.push(Viol { clause: clause.into(), step: -1, msg });
     match outcome {
+        SchedOutcome::Tainted => {
+            out.tainted = true;
+            return out;
+        }
         SchedOutcome::AllDone => {}
         SchedOutcome::Deadlock(alive) => {
             viol("C15.deadlock", format!("tasks {alive:?} are blocked forever (no task is runnable)"));
@@ -606,8 +630,10 @@ pub fn run_once(spec: &SharedSpec, sched: &Sched) -> OneRun {
                             }
                         }
                     }
+                    // a signature that verifies for no length under the independent reference is
+                    // C05's clause (scheme deviation), not a concurrency finding: left unchecked
                     if let ResAbs::ProofSome { sig_len, .. } = &mut recs_v[*idx].res {
-                        *sig_len = Some(found.unwrap_or(0));
+                        *sig_len = found;
                     }
                 }
             }
@@ -679,8 +705,18 @@ pub fn run_shared(spec: &SharedSpec) -> CaseOut {
     let mut out = CaseOut::default();
     out.nontrivial = false;
     let mut sched_hashes: BTreeSet<u64> = BTreeSet::new();
+    let starve = spec.starve;
     let mut push_run = |out: &mut CaseOut, r: &OneRun| {
         out.count("schedules", 1);
+        if r.retries > 0 {
+            out.count("barging_runs_repeated_after_os_stall", r.retries as u64);
+        }
+        if r.tainted {
+            out.count("barging_runs_abandoned_after_os_stalls", 1);
+        }
+        if starve {
+            out.count("schedules_with_forced_fair_lock_handoff", 1);
+        }
         out.count("preemptions", r.preemptions);
         out.count("linearisation_states_explored", r.lin_states);
         out.sim_steps += r.steps;
@@ -810,5 +846,5 @@ pub fn gen_spec(r: &mut Rng, idx: u64, small: bool) -> SharedSpec {
         }
         tasks.push(ops);
     }
-    SharedSpec { key_seed: idx ^ 0xc15, replica, prelude, prelude2, tasks, sched: Sched::Random { seed: r.next() } }
+    SharedSpec { key_seed: idx ^ 0xc15, replica, prelude, prelude2, tasks, sched: Sched::Random { seed: r.next() }, starve: false }
 }
